@@ -781,6 +781,10 @@ def run(prog, ctx):
     # a value returned as Ok must survive updates: the aux table an Hll4 image is rebuilt into keeps insert / find / grow on one
     # probe sequence (C02.Q, Q2), otherwise an entry is lost and the next update of that slot hits an `expect`
     C.import_rules(res, prog, ctx, "C14.Q", "C02", ("C02.Q", "C02.Q2"), "aux table rebuilt from an image", 2)
+    # the frequent-items reader rebuilds the map by insertion: each insertion is followed by the resize-or-purge step (C07.K); a map
+    # filled past its load limit makes the open-addressing probe spin or hit its drift limit inside deserialize()
+    C.import_rules(res, prog, ctx, "C14.K", "C07", ("C07.K",), "map rebuilt from an image keeps its load limit", 0,
+                   key_filter=lambda k: "deserialize" in k)
     res.explanation = ("interprocedural interval + taint abstract interpretation (MIR) over the %d functions reachable from the %d "
                        "deserialize entry points; every byte-tainted shift, allocation, index, checked arithmetic, division, explicit panic and "
                        "unwrap is an obligation; discharged = proved from dominating guards / post-conditions / field invariants; "
